@@ -89,6 +89,9 @@ pub fn json_entries(bytes: &[u8]) -> Result<u32, (String, String)> {
         let _ = serde_json::from_slice::<XStr>(bytes);
         let _ = serde_json::from_slice::<Str>(bytes);
         let _ = serde_json::from_slice::<Marker>(bytes);
+        let _ = serde_json::from_slice::<Remove>(bytes);
+        let _ = serde_json::from_slice::<Na>(bytes);
+        let _ = serde_json::from_slice::<List>(bytes);
         let _ = serde_json::from_slice::<Date>(bytes);
         let _ = serde_json::from_slice::<Time>(bytes);
         let _ = serde_json::from_slice::<Uri>(bytes);
@@ -134,7 +137,9 @@ pub struct Tables {
     pub jdocs: Vec<Vec<u8>>,
     jmut_prefix: Vec<u64>,
     structural: Vec<Vec<u8>>,
+    jstructural: Vec<Vec<u8>>,
     splice: Vec<Vec<u8>>,
+    rdocs: Vec<Vec<u8>>,
 }
 
 fn mutants_of(len: usize, alpha: usize) -> u64 {
@@ -269,9 +274,60 @@ pub fn tables(tier: Tier) -> &'static Tables {
                 }
             }
         }
-        Tables { zdocs, zmut_prefix: zp, jdocs, jmut_prefix: jp, structural: structural_docs(), splice }
+        // reader-fault documents: a hand-written list that has every construct with blanks, line
+        // endings, escapes and look-ahead in it, then documents spread evenly over the sorted set
+        let mut rdocs: Vec<Vec<u8>> = READER_DOCS.iter().map(|d| d.as_bytes().to_vec()).collect();
+        let want = tier.pick(150usize, 2000);
+        let stride = (zdocs.len() / want).max(1);
+        rdocs.extend(zdocs.iter().step_by(stride).take(want).cloned());
+        let jstructural: Vec<Vec<u8>> = super::c10::json_docs().into_iter().map(|d| d.into_bytes()).collect();
+        Tables { zdocs, zmut_prefix: zp, jdocs, jmut_prefix: jp, structural: structural_docs(), jstructural, splice, rdocs }
     })
 }
+
+const READER_DOCS: &[&str] = &[
+    "[1, 2,  3]",
+    "[ 1 ,2 ]",
+    "[1,\n2,\r\n3,]",
+    "{a:1  b:\"x\"}",
+    "{a b,c}",
+    "{ a:1 , b:2 }",
+    "ver:\"3.0\" a:1  b\na  x:1 , b\n1 , 2\n",
+    "ver:\"3.0\"\na,b\n 1 ,\"x\" \nN,\n",
+    "ver:\"3.0\"\r\na\r\n1\r\n",
+    "ver:\"2.0\" m\nempty\n",
+    "C(1.5,-2)",
+    "C( 1.5 , -2 )",
+    "Bin(\"x\")",
+    "Span( \"x\" )",
+    "@a  \"dis\"",
+    "@a \"d\\\"s\"",
+    "2021-03-11T23:55:00-05:00 New_York",
+    "2021-03-11T23:55:00Z UTC",
+    "2021-03-11T23:55:00.123456789+05:30 Kolkata",
+    "2021-03-11T23:55:00Z",
+    "1.5e+3kW",
+    "-1_000.25_5E-2m²",
+    "5$",
+    "`a b\\`c`",
+    "\"a\\u00e9\\n\\$é😀\"",
+    "^sym:a.b",
+    "<<\nver:\"3.0\"\na\n<<\nver:\"3.0\"\nb\n1\n>>\n>>",
+    "<<ver:\"3.0\"\na\n1\n>>",
+    "[<<\nver:\"3.0\"\na\n1\n>> , 2]",
+    "12:30:15.123",
+    "12:30",
+    "2021-01-01",
+    "NA",
+    "R",
+    "M",
+    "T",
+    "F",
+    "N",
+    "INF",
+    "-INF",
+    "NaN",
+];
 
 fn nest_depths() -> Vec<usize> {
     let mut d: Vec<usize> = (1..=256).collect();
@@ -362,10 +418,11 @@ fn jobs(tier: Tier) -> Vec<(&'static str, u64, u64)> {
         ("zmut", *t.zmut_prefix.last().unwrap(), 1 << 18),
         ("jmut", *t.jmut_prefix.last().unwrap(), 1 << 18),
         ("struct", t.structural.len() as u64, 1 << 12),
+        ("jstruct", t.jstructural.len() as u64, 1 << 12),
         ("splice", t.splice.len() as u64, 1 << 16),
         ("nest8", nd * NEST_PATTERNS as u64, 64),
         ("nest2", nd * NEST_PATTERNS as u64, 64),
-        ("reader", t.zdocs.len().min(tier.pick(150, 2000)) as u64, 16),
+        ("reader", t.rdocs.len() as u64, 16),
     ]
 }
 
@@ -398,6 +455,7 @@ pub fn job_input(job: &str, tier: Tier, ord: u64) -> Input {
             Input::Json(mutant(&t.jdocs[i], k, JTOK))
         }
         "struct" => Input::Zinc(t.structural[ord as usize].clone()),
+        "jstruct" => Input::Json(t.jstructural[ord as usize].clone()),
         "splice" => Input::Zinc(t.splice[ord as usize].clone()),
         "nest8" | "nest2" => {
             let depths = nest_depths();
@@ -410,7 +468,7 @@ pub fn job_input(job: &str, tier: Tier, ord: u64) -> Input {
                 Input::Zinc(text)
             }
         }
-        "reader" => Input::Zinc(t.zdocs[ord as usize].clone()),
+        "reader" => Input::Zinc(t.rdocs[ord as usize].clone()),
         other => crate::engine::machinery(&format!("C03: unknown job {other}")),
     }
 }
@@ -591,7 +649,7 @@ pub fn child_params(job: &str) -> (u64, u64, usize) {
 
 pub fn run(tier: Tier) -> i32 {
     let mut run = Run::new("C03", tier, "fault_enumeration");
-    run.rule = "inputs: every byte string <= 2/3 over all 256 bytes, every string <= 4/5 over the 27-byte token alphabet (Zinc) and a 23-byte JSON alphabet; every prefix, substitution (by each alphabet byte), deletion, duplication and insertion at every position of grammar documents (canonical and 1-deviation spellings of one value per shape class + containers); token-boundary splices of 40 documents; structural damage (rows with 0..n+3 cells, unterminated constructs at every position, header damage); nesting depth 1..256 and 2^k(+1) up to 131072 and 10^5 for 12 nesting patterns on 8 MiB and 2 MiB stacks; reader scripts (deliver/Interrupted/error/EOF/1 byte at every read call) with <= 2 deviations (<= 4 for documents <= 12 bytes). Entry points: from_str, Parser::make+parse_value, parse_grid, parse_grid_iterator (driven to the first error), serde_json from_str/from_slice for Value and 13 typed values, from_value. non-trivial = distinct input of >= 2 bytes (first 64 bytes)".into();
+    run.rule = "inputs: every byte string <= 2/3 over all 256 bytes, every string <= 4/5 over the 27-byte token alphabet (Zinc) and a 23-byte JSON alphabet; every prefix, substitution (by each alphabet byte), deletion, duplication and insertion at every position of grammar documents (canonical and 1-deviation spellings of one value per shape class + containers); token-boundary splices of 40 documents; structural damage (rows with 0..n+3 cells, unterminated constructs at every position, header damage; Hayson: every kind tag with every member drawn from 19 fields of right and wrong JSON types, grid parts of the wrong type); nesting depth 1..256 and 2^k(+1) up to 131072 and 10^5 for 12 nesting patterns on 8 MiB and 2 MiB stacks; reader scripts (deliver/Interrupted/error/EOF/1 byte at every read call) with <= 2 deviations (<= 4 for documents <= 12 bytes) over 41 hand-written documents (every construct with blanks, line endings, escapes, look-ahead) + 150/2000 documents spread over the grammar set. Entry points: from_str, Parser::make+parse_value, parse_grid, parse_grid_iterator (driven to the first error), serde_json from_str/from_slice for Value and 16 typed values, from_value. non-trivial = distinct input of >= 2 bytes (first 64 bytes)".into();
     run.assume("a case that does not finish within 6 s is a hang (cases take microseconds); hangs and crashes are confirmed by re-running the case in a fresh single-step child");
     run.assume("each case runs in a child process: abort, stack overflow and allocation failure are observed through the exit status");
     crate::engine::quiet_panics();
